@@ -4,6 +4,7 @@ pub mod c09;
 pub mod certs;
 pub mod crls;
 pub mod csrs;
+pub mod imports;
 pub mod c13;
 pub mod c20;
 
@@ -32,6 +33,25 @@ pub fn dispatch(ctx: &Ctx, _extra: &[String]) -> (String, String) {
 				"case = one edit history (sequence of push/remove); exhaustive histories are enumerated (distinct by construction) and additionally the distinct reached states (hash of the model enumeration) are counted; a history is non-trivial when it has at least one operation".into(),
 				"all histories up to the stated length over 12 operations".into(),
 			)
+		},
+		#[cfg(all(feature = "crypto", feature = "ossl"))]
+		"C03" | "C17" => {
+			use crate::keys::{build_pool, PoolSize};
+			let pool = build_pool(if ctx.quick() { PoolSize::Quick } else { PoolSize::Thorough });
+			ctx.note(format!("key pool: {}", pool.iter().map(|k| k.label.clone()).collect::<Vec<_>>().join(",")));
+			if ctx.prop == "C03" {
+				imports::run_c03(ctx, &pool);
+				(
+					"case = (issuer parameters or OpenSSL-made CA, issuer key, leaf parameters, leaf key); three issuer origins: rcgen-generated, rcgen-generated then imported and re-created, OpenSSL-made then imported; distinct by hash of the expanded case".into(),
+					String::new(),
+				)
+			} else {
+				imports::run_c17(ctx, &pool);
+				(
+					"case = one ParamSpec (importable subset of the C02 space) generated, imported (DER and PEM), compared field-wise and re-issued; enumerated: 512 key-usage subsets, 256 path lengths, 2x256 prefixes x 4 constructors; random cases by hash; OpenSSL-made CAs by hash".into(),
+					"512 key-usage subsets, 256 path lengths, 512 prefix cases".into(),
+				)
+			}
 		},
 		#[cfg(all(feature = "crypto", feature = "ossl"))]
 		"C01" | "C02" | "C04" | "C05" | "C07" | "C08" => artefacts(ctx),
